@@ -185,8 +185,14 @@ class RollingWindow(Contract):
             rank = rng.choice([1, 2])
             coords = list(_rand_coords(rng, nrng, rank, rng.choice([0, 1]), scale=10.0, offset=rng.choice([0.0, 1e4])))
             region = None
-            if rng.random() < 0.5:
+            rr = rng.random()
+            if rr < 0.35:
                 region = (float(coords[0].min()) - 1.0, float(coords[0].max()) + 1.0, float(coords[1].min()) - 0.5, float(coords[1].max()) + 2.0)
+            elif rr < 0.7:
+                # a sub-region of the data extent: points lie beyond every border (windows may reach over them,
+                # in particular when adjust='region' moves the east/north border outwards)
+                w, e, s_, n_ = float(coords[0].min()), float(coords[0].max()), float(coords[1].min()), float(coords[1].max())
+                region = (w + 0.2 * (e - w), e - 0.3 * (e - w), s_ + 0.25 * (n_ - s_), n_ - 0.2 * (n_ - s_))
             size = rng.choice([0.5, 1.0, 2.0, 4.0])
             if region is not None:
                 # a point exactly on a window edge / corner
@@ -195,7 +201,15 @@ class RollingWindow(Contract):
             if rng.random() < 0.5:
                 yield (tuple(coords), size), dict(shape=(rng.randint(2, 4), rng.randint(2, 5)), region=region)
             else:
-                yield (tuple(coords), size), dict(spacing=rng.choice([0.5, 1.0, (2.0, 1.0), 3.0]), region=region, adjust=rng.choice(["spacing", "region"]))
+                yield (tuple(coords), size), dict(spacing=rng.choice([0.5, 1.0, (2.0, 1.0), 3.0, rng.uniform(0.7, 3.3)]), region=region, adjust=rng.choice(["spacing", "region"]))
+        # dense lattice around an explicit sub-region, spacings that do not divide it: with adjust='region' the last
+        # windows reach beyond the requested east/north border and must still select the points lying there
+        ax = np.arange(0.0, 16.25, 0.5)
+        LE, LN = np.meshgrid(ax, ax)
+        for spacing in (3.0, 2.4, 3.5, 5.0):
+            for adjust in ("region", "spacing"):
+                yield ((LE.ravel(), LN.ravel()), 4.0), dict(spacing=spacing, region=(2.0, 14.0, 2.0, 14.0), adjust=adjust)
+        yield ((LE, LN), 3.0), dict(spacing=(3.5, 2.4), region=(1.0, 12.0, 3.0, 15.0), adjust="region")
         yield ((np.array([0.0, 1.0]), np.array([0.0, 1.0])), 0.5), {}
         yield ((np.array([0.0, 1.0]), np.array([0.0, 1.0])), 5.0), dict(spacing=0.5)
 
